@@ -425,7 +425,7 @@ func newRandomWorld(t *testing.T, wi int, dir string) (*randomWorld, error) {
 	w.t = t
 	w.dir = dir
 	w.net = chainkit.NewNet(5, 3)
-	mtb := uint32(14 + w.rnd.Intn(8))
+	mtb := uint32(12 + w.rnd.Intn(6))
 	w.protocol = func(c *config.Blockchain) {
 		c.MaxTraceableBlocks = mtb
 		c.MaxValidUntilBlockIncrement = 8
